@@ -89,7 +89,7 @@ def run_contexts(report, alpha, contexts, max_holes, path_fn, min_holes=0, sym_c
 
             def make_engine(tpl=tpl):
                 eng = E.Engine()
-                tpl.declare(eng)
+                tpl.declare(eng, coords=sym_coords)
                 return eng
 
             def once(tpl=tpl, Lex=Lex):
@@ -132,6 +132,8 @@ def _leaf_equal(a, b):
         if isinstance(a, SymInt) and isinstance(b, SymInt):
             return a.e.eq(b.e) or E.cur().prove(a.e == b.e) == "proved"
         return False
+    if isinstance(a, str) and isinstance(b, str):
+        return str.__eq__(str(a), str(b))
     return type(a) == type(b) and a == b
 
 
